@@ -15,7 +15,7 @@ func init() { register("C28", checkC28) }
 func checkC28(p *Prog, r *Result, tier string) {
 	r.Technique = "sibling-agreement rule on every site of the redis store that classifies a keyspace action (constant-reference analysis of boolean chains and case clauses, against the etcd delete-event classification), go/cfg path rules on the watcher (every not-alive message reaches SetNode with WorkloadsDown) and on the workload sweep (every status write is dominated by Running=false, Healthy=false)"
 	r.Explanation = "CL1 every redis site that turns a keyspace action into a gone/alive or delete decision treats `del` and `expired` alike (both constants occur in the same boolean chain or case list with the same operator); CL2 the etcd node-status stream reports not-alive exactly for delete events; both streams send one status per event; " +
-		"M1 dealNodeStatusMessage reaches cluster.SetNode{Nodename: message.Nodename, WorkloadsDown: true} on every path except the two early returns for an errored message and for an alive message; M2 monitor starts the initial sweep and handles every message of the node status stream with dealNodeStatusMessage; " +
+		"M1 dealNodeStatusMessage reaches cluster.SetNode{Nodename: message.Nodename, WorkloadsDown: true} on every path except the two early returns for an errored message and for an alive message; M2 monitor starts the initial sweep, concurrently with (or after) opening the node status stream so that no lapse falls between the two, and handles every message of the stream with dealNodeStatusMessage; " +
 		"M3 the initial sweep lists all nodes (All: true), turns a failed status lookup into a not-alive status and hands every node's status to dealNodeStatusMessage; " +
 		"W1 SetNode calls the workload sweep under `opts.WorkloadsDown`; W2 in the sweep every SetWorkloadStatus is dominated by the assignments Running=false and Healthy=false on the same status object, with TTL 0 (never expires on its own)."
 	r.NotCovered = "'eventually' (timing, pool saturation); workloads whose name does not parse are skipped (logged); that a watcher is active at all (C26)"
@@ -23,7 +23,7 @@ func checkC28(p *Prog, r *Result, tier string) {
 	r.min("CL1", 3)
 	r.min("CL2", 3)
 	r.min("M1", 2)
-	r.min("M2", 2)
+	r.min("M2", 3)
 	r.min("M3", 3)
 	r.min("W1", 1)
 	r.min("W2", 1)
@@ -305,6 +305,36 @@ func checkC28(p *Prog, r *Result, tier string) {
 			return true
 		})
 		r.check(goInit, "M2", MON.Name+" / starts the initial sweep", p.pos(MON.Decl), "initNodeStatus is started", "the initial sweep is not started: a node that lapsed before the watcher became active is never handled")
+		// the status watch must be open before the sweep can finish: either the sweep runs in its own goroutine, or the
+		// stream is opened before the (synchronous) sweep; otherwise a lapse during the sweep is seen by neither
+		{
+			var initCall, streamCall *ast.CallExpr
+			asyncInit := false
+			MON.inspectBody(func(n ast.Node) bool {
+				switch x := n.(type) {
+				case *ast.GoStmt:
+					if MON.Callee(x.Call) == INI.Obj {
+						asyncInit, initCall = true, x.Call
+					}
+				case *ast.CallExpr:
+					if MON.Callee(x) == INI.Obj && initCall == nil {
+						initCall = x
+					}
+					if f := MON.Callee(x); f != nil && objName(f) == "cluster.Cluster.NodeStatusStream" {
+						streamCall = x
+					}
+				}
+				return true
+			})
+			why := ""
+			switch {
+			case initCall == nil || streamCall == nil:
+				why = "sweep or stream call not found"
+			case !asyncInit && !MON.dominates(MON.find(streamCall), MON.find(initCall)):
+				why = "the initial sweep runs to completion before the node status stream is opened: a heartbeat that disappears after the sweep has read that node as alive and before the stream exists is seen by neither, and the node's workloads are never marked down"
+			}
+			r.check2(why, "M2", MON.Name+" / no gap between the initial sweep and the status stream", p.pos(MON.Decl), "the sweep runs concurrently (go) or after the stream has been opened")
+		}
 		why := "messages of cluster.NodeStatusStream are not handed to dealNodeStatusMessage"
 		var chObj types.Object
 		MON.inspectBody(func(n ast.Node) bool {
